@@ -107,6 +107,11 @@ pub fn build(
                 format!("implicit value for case `{name}` of enum `{resolvee_path}` overflows")
             })?,
         };
+        if let Some((other, _)) = fields.iter().find(|(_, v)| *v == value) {
+            anyhow::bail!(
+                "case `{name}` of enum `{resolvee_path}` has the value {value}, which case `{other}` already has"
+            );
+        }
         fields.push((name.0.clone(), value));
 
         for attribute in attributes {
